@@ -904,7 +904,17 @@ def cases(draw):
 
 
 def run(ctx):
+    # pylint: disable=import-outside-toplevel
+    import json
+    import traceback
+    from vlib.runner import Failure, VERIF
+    broken = {}
+
     def prop(case):
+        if broken:
+            # a harness problem was already recorded (with its case): make
+            # Hypothesis' minimisation of it instantaneous
+            raise broken["err"]
         ctx.case()
 
         def report(bucket, extra, msg):
@@ -916,13 +926,29 @@ def run(ctx):
             if kind == "label":
                 ctx.label(value)
 
-        res = check_case(case, report, note)
+        try:
+            res = check_case(case, report, note)
+        except Failure:
+            raise
+        except Exception as err:        # pylint: disable=broad-except
+            os.makedirs(os.path.join(VERIF, "failures"), exist_ok=True)
+            path = os.path.join(VERIF, "failures",
+                                f"C15_harness_shard{ctx.shard}.json")
+            dump = dict(case)
+            dump["traceback"] = traceback.format_exc()
+            with open(path, "w", encoding="utf-8") as fout:
+                json.dump(dump, fout, indent=1, default=str)
+            broken["err"] = HarnessError(
+                f"unexpected {type(err).__name__} in the C15 harness: {err} "
+                f"(case written to {path})")
+            raise broken["err"] from err
         if res["nontrivial"]:
             ctx.label("nontrivial")
             ctx.nontriv([case["source"], case["prep"], case["target"],
-                         case["edits"]])
+                         case["probes"], case["edits"]])
             ctx.sample({"target": case["target"], "prep": case["prep"],
-                        "edits": case["edits"], "feat": res.get("feat"),
+                        "probes": case["probes"], "edits": case["edits"],
+                        "feat": res.get("feat"),
                         "source_lines": len(case["source"].splitlines())})
         elif not res["edits_ok"]:
             ctx.label("trivial:no_edit_applied")
